@@ -171,8 +171,9 @@ static uintptr_t bufferRef(MPT_INTERFACE(metatype) *mt)
 	(void) mt;
 	return 0;
 }
-static MPT_INTERFACE(metatype) *bufferCopy(MPT_INTERFACE(metatype) *(*copy)(const MPT_STRUCT(array) *), const MPT_STRUCT(slice) *sl)
+static MPT_INTERFACE(metatype) *bufferCopy(MPT_INTERFACE(metatype) *(*copy)(const MPT_STRUCT(array) *), const MPT_STRUCT(metaBuffer) *from)
 {
+	const MPT_STRUCT(slice) *sl = &from->s;
 	MPT_STRUCT(metaBuffer) *ptr;
 	MPT_INTERFACE(metatype) *res;
 	if (!(res = copy(&sl->_a))) {
@@ -181,12 +182,14 @@ static MPT_INTERFACE(metatype) *bufferCopy(MPT_INTERFACE(metatype) *(*copy)(cons
 	ptr = (void *) res;
 	ptr->s._len = sl->_len;
 	ptr->s._off = sl->_off;
+	/* string element of copied position */
+	ptr->str = (from->str && ptr->s._a._buf) ? ((const char *) (ptr->s._a._buf + 1)) + ptr->s._off : 0;
 	return res;
 }
 static MPT_INTERFACE(metatype) *bufferClone(const MPT_INTERFACE(metatype) *mt)
 {
 	const MPT_STRUCT(metaBuffer) *m = (void *) mt;
-	return bufferCopy(mpt_meta_buffer, &m->s);
+	return bufferCopy(mpt_meta_buffer, m);
 }
 
 /*!
@@ -290,7 +293,7 @@ static int bufferConvArgs(MPT_INTERFACE(convertable) *val, MPT_TYPE(type) type, 
 static MPT_INTERFACE(metatype) *bufferCloneArgs(const MPT_INTERFACE(metatype) *mt)
 {
 	const MPT_STRUCT(metaBuffer) *m = (void *) mt;
-	return bufferCopy(mpt_meta_arguments, &m->s);
+	return bufferCopy(mpt_meta_arguments, m);
 }
 /*!
  * \ingroup mptArray
